@@ -1484,3 +1484,45 @@ package yqlib
 //@ func createValueOperation
 //@   props C18 C11
 //@   ensures @an-operation-of-its-own {C18} result != nil && fresh(result) && result.OperationType == valueOpType && result.StringValue == stringValue && result.CandidateNode != nil && fresh(result.CandidateNode)
+
+// ---------------------------------------------------------------------------------------------
+// operator_omit.go, operator_pick.go: a filtered container owns its children (C03, C16)
+
+//@ pred ownsItsChildren(r) = r != nil && fresh(r) && forall(i, 0, len(r.Content), r.Content[i] != nil && fresh(r.Content[i]) && r.Content[i].Parent == r)
+
+//@ func findInArray
+//@   trusted
+//@   modifies \nothing
+//@   ensures 0 - 1 <= result && result < len(array.Content)
+
+//@ func findKeyInMap
+//@   trusted
+//@   modifies \nothing
+//@   ensures 0 - 1 <= result && result < len(dataMap.Content) && implies(result >= 0, result % 2 == 0)
+
+//@ func omitMap
+//@   props C03 C16
+//@   nosafety
+//@   requires original != nil && indices != nil
+//@   assume @children-non-nil forall(i, 0, len(original.Content), original.Content[i] != nil) && len(original.Content) % 2 == 0
+//@   ensures @a-container-that-owns-its-children {C03,C16} ownsItsChildren(result)
+//@   loop 1:
+//@     invariant 0 <= index && index % 2 == 0 && len(filteredContent) % 2 == 0 && forall(i, 0, len(filteredContent), filteredContent[i] != nil) && original.Content == old(original.Content) && forall(i, 0, len(original.Content), original.Content[i] != nil)
+
+//@ func omitSequence
+//@   props C03 C16
+//@   nosafety
+//@   requires original != nil && indices != nil
+//@   assume @children-non-nil forall(i, 0, len(original.Content), original.Content[i] != nil)
+//@   ensures @a-container-that-owns-its-children {C03,C16} ownsItsChildren(result)
+//@   loop 1:
+//@     invariant 0 <= index && forall(i, 0, len(filteredContent), filteredContent[i] != nil) && original.Content == old(original.Content) && forall(i, 0, len(original.Content), original.Content[i] != nil)
+
+//@ func pickMap
+//@   props C03 C16
+//@   nosafety
+//@   requires original != nil && indices != nil
+//@   assume @children-non-nil forall(i, 0, len(original.Content), original.Content[i] != nil) && len(original.Content) % 2 == 0 && forall(i, 0, len(indices.Content), indices.Content[i] != nil)
+//@   ensures @a-container-that-owns-its-children {C03,C16} ownsItsChildren(result)
+//@   loop 1:
+//@     invariant 0 <= index && len(filteredContent) % 2 == 0 && forall(i, 0, len(filteredContent), filteredContent[i] != nil) && original.Content == old(original.Content) && forall(i, 0, len(original.Content), original.Content[i] != nil) && len(original.Content) % 2 == 0
